@@ -234,12 +234,23 @@ def c10(run, args):
     run.cov["exhaustive"] = True
     beh = concretise(run, bfs, ["file"], lambda i, st: [(0, 0), (2, 0)] if not quick else [((i + run.seed) % 2 * 2, 0)], 500, rng, "bfs")
     beh += concretise(run, sim, ["file"], lambda i, st: [(0, 0), (3, 0)], 500, rng, "sim", probe_every=4)
+    # the server is stopped and started again between any two operations: every mutating operation runs in a fresh child
+    # process on the same path (process-global state such as the id counter starts over)
+    prs = run.generate("GenMailstore", gen_cfg(2, [1], [1], 4 if quick else 5, scan=False, seen=True))
+    prs = [b for b in prs if sum(1 for o in b if o["op"] == "add") >= 2]
+    rng.shuffle(prs)
+    prs = prs[:150 if quick else 1500]
+    pb = concretise(run, prs, ["file"], lambda i, st: [((i + run.seed) % 2 * 2, 0)], 500, rng, "proc", probe_every=2)
+    for b in pb:
+        b["procs"] = True
+    run.cov["restart_behaviours"] = len(pb)
+    beh += pb
     run.cov["samples"] = [bfs[len(bfs) // 3], sim[0][:12]] if bfs and sim else []
     replay_and_validate(run, vh, beh, "c10", "C10 durability across reopen", capinv=False)
     run.cov["rule"] = ("TLC enumerates every mutator sequence with a close-and-reopen of the file store inserted at every position (contract: reopen is a "
                        "stuttering step: same ids, order, metadata, seen flags, sizes, content; the reopened store may be configured with another cap, which applies from the next delivery on), plus long simulated histories with many reopen points; "
                        "all operations after a reopen (deliveries, cap eviction, retention scan) are validated against the contract like any other")
-    run.assumptions += ["quick/thorough: reopen = a new file.Store on the same path in the same process; the id counter restarting with the process is covered by the thorough-tier child-process variant when built"]
+    run.assumptions += ["reopen = a new file.Store on the same path in the same process; the restart family runs every mutating operation in a fresh child process (id counter and all other process state start over)"]
 
 
 # --------------------------------------------------------------------------- C16
